@@ -344,6 +344,32 @@ Example mfx_warm_start_would_depend_on_history :
   Qeq_bool (fit_V2 (fit_method P X 1 oA [0; 1] [1; 1])) (fit_V2 (fit_method P X 1 fresh_obj [0; 1] [1; 1])) = true.
 Proof. exact warm_start_depends_on_history. Qed.
 
+(* ================================================================ Gaussian MFX (lib/fff, student_mfx / mean_gauss_mfx) *)
+(* the C one-sample EM step and MixedEffectsModel's EM step for the one-sample design coincide *)
+Theorem gmfx_em_step_is_mixed_effects_step : forall x var m0 v0, x <> [] -> length x = length var ->
+  let Z := map2 (gm_mi m0 v0) x var in
+  let cvar := map (gm_vi v0) var in
+  let st := gmfx_step false x var (m0, v0) in
+  fst st == qmean Z /\
+  snd st == qmean (map (fun z => sqdiff z (qmean Z)) Z) + qmean cvar.
+Proof. exact gmfx_step_is_mixed_effects_step. Qed.
+Print Assumptions gmfx_em_step_is_mixed_effects_step.
+
+Theorem gmfx_posterior_mean_is_estep : forall m0 v0 xi si, gm_mi m0 v0 xi si == e_mean v0 xi si m0.
+Proof. exact gm_mi_is_e_mean. Qed.
+Print Assumptions gmfx_posterior_mean_is_estep.
+
+(* FINDING: student_mfx is documented as the likelihood ratio of H0: mean = base, but the
+   constrained fit of _fff_onesample_gmfx_EM pins the mean at 0 for every base *)
+Theorem student_mfx_null_mean_is_always_zero : forall n x var, student_mfx_null_mean n x var = 0.
+Proof. exact gmfx_constrained_mean_zero. Qed.
+Print Assumptions student_mfx_null_mean_is_always_zero.
+
+Theorem student_mfx_null_mean_is_base_refuted :
+  exists n x var base, ~ student_mfx_null_mean n x var == base.
+Proof. exists 1%nat, [1; 2], [1; 1], 1. unfold student_mfx_null_mean. rewrite gmfx_constrained_mean_zero. discriminate. Qed.
+Print Assumptions student_mfx_null_mean_is_base_refuted.
+
 (* ================================================================ p-values *)
 Theorem calibrated_p_in_closed_unit_interval : forall draws t, draws <> [] ->
   0 <= p_calibrate draws t <= 1.
